@@ -1447,6 +1447,10 @@ def fuzz_inputs(ctx: Ctx) -> list[tuple[str, str, str | bytes]]:
 	for md, s in DEEP_NESTING:
 		for m in (both if md == 'both' else (md,)):
 			out.append(('deep-nesting', m, s))
+	# depth stress: the reported node sits 10..600 levels deep (printing it is what needs care)
+	for md, s in gen.depth_cases(ctx.thorough):
+		for m in (both if md == 'both' else (md,)):
+			out.append(('depth-stress', m, s))
 	# histories: a program that imports from its own module stays registered; the next input of the session unloads it
 	for m in both:
 		for s in gen.SELF_IMPORT_PROGRAMS:
@@ -1471,7 +1475,7 @@ def fuzz_inputs(ctx: Ctx) -> list[tuple[str, str, str | bytes]]:
 	if ctx.thorough:
 		for name, s in gen.large_sources():
 			out.append(('seed-large', 'in-memory', s))
-	n = ctx.scale(1900, 15000)
+	n = ctx.scale(1500, 15000)
 	big = [s for _, s in gen.large_sources()] if ctx.thorough else []
 	chunk_share = 0.06 if ctx.thorough else 0.03  # a chunk costs ~0.2 s per run, a small seed ~0.02 s
 	for i in range(n):
@@ -1548,7 +1552,7 @@ def search_fuzz(ctx: Ctx) -> SearchResult:
 	for k in sorted(first):
 		kind, mode, data, o, before = first[k]
 		# corpus witnesses are already minimal, deep-nesting inputs are what they are (and each run of them costs seconds)
-		small = data if kind in ('corpus', 'witness-F3', 'deep-nesting') else minimise(pipes[mode], data, k)
+		small = data if kind in ('corpus', 'witness-F3', 'deep-nesting', 'depth-stress') else minimise(pipes[mode], data, k)
 		history: list[str | bytes] = []
 		conf = pl.fresh_outcome(mode, base, small, post=syntax_oracle)
 		if k not in conf.keys():
@@ -1682,8 +1686,39 @@ def search_laws(ctx: Ctx) -> SearchResult:
 		passthrough = any(t.split(' ', 1)[1].startswith(('B BaseException', 'B KeyboardInterrupt', 'B SystemExit', 'B GeneratorExit', f"U {hx('MyBase')}", f"U {hx('MyInterrupt')}")) for t in raised)
 		if not (out == 'ok' or ' E ' in out or passthrough):
 			res.findings.append(Finding(key=f"load:{out.split(' ')[1]}@{d['kind']}", what=f'Modules.load let {out} escape ({d["kind"]} stage)', replay={'op': ops[0], 'real': out}))
+	# -- ErrorRender (public API): an argument whose str() raises any Exception must not make the render raise
+	from rogw.tranp.view.error_render import ErrorRender
+	unprintable = [RecursionError('deep'), KeyError('k'), TypeError('t'), UnicodeDecodeError('utf-8', b'\\xff', 0, 1, 'bad'), UnicodeEncodeError('ascii', 'é', 0, 1, 'bad'),
+		ValueError('v'), AttributeError('a'), IndexError('i'), AssertionError('as'), ZeroDivisionError('z'), Errors.Logic('l'), Errors.IllegalConvertion('c')]
+	for inner in unprintable:
+		for outer_cls in (Errors.Fatal, Errors.UnresolvedSymbol, KeyError):
+			for shape in ('only', 'first', 'last'):
+				bad = _BadStr(inner)
+				args = {'only': [bad], 'first': [bad, 'm', 1], 'last': ['m', 1, bad]}[shape]
+				res.cases += 1
+				try:
+					try:
+						raise outer_cls(*args)
+					except BaseException as e:  # noqa: BLE001
+						text = str(ErrorRender(e))  # type: ignore[arg-type]
+					hist['render/ok'] += 1
+					if repr(bad) not in text:
+						res.findings.append(Finding(key=f'render-law:no-repr[{type(inner).__name__}]', what=f'render of {outer_cls.__name__} with an argument whose str() raises {type(inner).__name__} does not show its repr', replay={'inner': type(inner).__name__, 'shape': shape}))
+				except BaseException as e2:  # noqa: BLE001
+					hist[f'render/raise:{display(type(e2))}'] += 1
+					res.findings.append(Finding(key=f'render-law:{display(type(e2))}[str raises {type(inner).__name__}]',
+						what=f'str(ErrorRender({outer_cls.__name__}(…))) raised {display(type(e2))}: the argument ({shape}) has a __str__ that raises {type(inner).__name__}',
+						replay={'outer': outer_cls.__name__, 'inner': type(inner).__name__, 'shape': shape, 'tranp_frames': pl.tranp_frames(e2)[-4:]}))
 	# -- Interactive
 	loop = LoopRig(ctx)
+	for inner in unprintable:
+		res.cases += 1
+		exc = Errors.Fatal(_BadStr(inner), 'm')
+		out = loop.run_script([('stub', exc), ('stub', None)])
+		hist[f'loop-unprintable/{out}'] += 1
+		if out != 'running 2':
+			res.findings.append(Finding(key=f'loop:unprintable[{type(inner).__name__}]', what=f'Interactive.run did not survive printing an Errors.Fatal whose argument has a __str__ raising {type(inner).__name__}: {out}', replay={'inner': type(inner).__name__, 'status': out}))
+			loop = LoopRig(ctx)
 	for cls in exception_classes():
 		if not issubclass(cls, Errors.Error) or not ctor1_of(cls):
 			continue
@@ -1719,6 +1754,9 @@ def search_loop_histories(ctx: Ctx) -> SearchResult:
 	for s in selfs:  # every self-import followed by something, and twice in a row
 		histories.append([s, 'b = 2'])
 		histories.append([s, s, pool[0]])
+	for kind in (gen.DEPTH_KINDS if ctx.thorough else ('paren', 'list', 'minus')):
+		for d in ((10, 100, 250, 300, 600) if kind in ('paren', 'list', 'minus', 'tuple') else (100, 300)):
+			histories.append([gen.DEPTH_KINDS[kind](d), 'b = 2'])
 	for _ in range(ctx.scale(40, 400)):
 		n = rng.randint(2, 6)
 		h = [rng.choice(selfs) if rng.random() < 0.25 else rng.choice(pool) for _ in range(n)]
